@@ -8,7 +8,7 @@ from cassandra.cluster import NoHostAvailable
 META = dict(
     level='model_checking',
     level_text='every combination of per-host pool condition (healthy / no pool / shut down / all streams busy / send fails) over plans of up to 4 hosts, followed by bounded response histories with next-host retry decisions, through the real ResponseFuture.send_request/_query over real pools; each combination and event order is a forked symbolic choice decided by z3',
-    level_note='task-level schedules; pool conditions are set up on real HostConnection objects (shutdown(), in_flight at capacity, transport raising); transport/timers/executor faked',
+    level_note='task-level schedules; plus, in the *-race jobs, one pre-emption by another thread (a response, a timer, a queued task or a connection failure) at any lock acquire/release reached while the running thread holds no lock; pool conditions are set up on real HostConnection objects (shutdown(), in_flight at capacity, transport raising); transport/timers/executor faked',
     technique='symbolic execution (sx proxies) of the real ResponseFuture host-selection path over solver-enumerated pool-state vectors and event orders + z3 validity per path',
     bounds=dict(quick='plans of 1..4 hosts x 5 pool conditions per host; afterwards <= 3 events with responses {rows, unavailable -> policy oracle {NEXT, RETHROW}}; explicit-host target with 2 conditions',
                 thorough='same plans, <= 5 events, all four retry decisions'),
@@ -23,7 +23,7 @@ def encoded_functions():
     return [R.send_request, R._query, R._make_query_plan, R._retry_task, R._handle_retry_decision]
 
 
-def h_plan(V, hosts=3, steps=3, decisions=(NEXT, RETHROW), target=False):
+def h_plan(V, hosts=3, steps=3, decisions=(NEXT, RETHROW), target=False, race=False):
     run = Run(V, n_hosts=hosts, pool_states=rfhist.POOL_STATES, responses=('rows', 'unavailable'), decisions=decisions,
               levels=(None,), allow_defunct=False, max_policy_calls=3, host_target=target)
     rf = run.rf
@@ -43,6 +43,9 @@ def h_plan(V, hosts=3, steps=3, decisions=(NEXT, RETHROW), target=False):
         skipped = plan
     for i in skipped:
         V.check(world.hosts[i] in rf._errors, 'skipped-host-recorded-with-reason', note='host %d (%s)' % (i, states[i]))
+    if race:
+        # from here on another thread may deliver a response / run a queued retry at any lock acquire or release
+        rfhist.arm_race(V, run)
     for i in range(steps):
         if run.step('ev%d' % i) is None:
             break
@@ -107,6 +110,7 @@ def jobs(tier):
     js = [Job('target', 'h_plan', dict(hosts=2, steps=2, target=True, decisions=dec), o), Job('retry-unusable', 'h_retry_unusable', {}, o)]
     for n in (1, 2, 3):
         js.append(Job('plan-%d' % n, 'h_plan', dict(hosts=n, steps=5 if th else 3, decisions=dec), o))
+    js.append(Job('plan-3-race', 'h_plan', dict(hosts=3, steps=4 if th else 3, decisions=(NEXT, RETHROW, RETRY), race=True), o))
     for p0 in range(5):
         js.append(Job('plan-4-p%d' % p0, 'h_plan', dict(hosts=4, steps=5 if th else 3, decisions=dec), dict(o, pin={'pool0': p0})))
     return js
